@@ -286,6 +286,7 @@ def run_case(case):
     clib.reb_simulation_remove_particle_by_hash.restype = c_int
     clib.reb_simulation_particle_by_hash.restype = POINTER(rebound.Particle)
     m = Model()
+    held = [None]
     viol = []
     counters = dict(ops=0, invalid_ops=0, lookups=0, lookups_hit=0, lookups_miss=0, growth_crossings=0,
                     sorted_removals=0, unsorted_removals=0, dup_hash_ops=0, zero_hash_lookups=0)
@@ -407,6 +408,7 @@ def run_case(case):
             else:
                 sim2 = rebound.Simulation(rt.save_bytes(sim))
             sim = sim2
+            held[0] = None          # a container of the previous simulation object stays with that object
             counters['continued_on_copy_or_snapshot'] = counters.get('continued_on_copy_or_snapshot', 0) + 1
             probes = [p[1] for p in m.ps][:3]
         elif o == 'remove_all':
@@ -515,6 +517,31 @@ def run_case(case):
         maxN = max(maxN, sim.N)
         if not check_state(k, op, probes):
             break
+        if api == 'py' and case['mode'] != 'tree' and rr.random() < 0.03 and 0 < sim.N < 300:
+            # a container object that is kept across a reallocation of the particle storage: look at it, grow the array past its
+            # allocation, shrink back to the same N without touching the container, look again
+            if held[0] is None or rr.random() < 0.3:
+                held[0] = sim.particles
+            hp = held[0]
+            N0 = sim.N
+            first = [int(p.m) for p in hp]
+            grow = 129 + rr.randrange(200)
+            for j_ in range(grow):
+                sim.add(m=float(10 ** 7 + j_), x=float(j_))
+            for j_ in range(grow):
+                sim.remove(sim.N - 1, keep_sorted=bool(rr.random() < 0.5))
+            drain()
+            counters['held_container_roundtrips'] = counters.get('held_container_roundtrips', 0) + 1
+            try:
+                second = [int(p.m) for p in hp]
+                lastv = int(hp[-1].m)
+                sl = [int(p.m) for p in hp[0:N0:2]]
+            except Exception as e_:
+                second, lastv, sl = repr(e_), None, None
+            want = [int(p.m) for p in sim.particles]       # a fresh container (itself compared with the model after every op)
+            if sim.N != N0 or sorted(want) != sorted(p[0] for p in m.ps) or first != want or second != want or lastv != want[-1] or sl != want[0:N0:2]:
+                viol.append(dict(mech='container:held-object-stale-after-reallocation', msg='after op %d: a Particles object kept across add x%d / remove x%d shows %r..., the simulation holds %r...' % (k, grow, grow, str(second)[:80], want[:6])))
+                break
         if api == 'py' and rr.random() < 0.05 and sim.N > 0:
             # container semantics: negative index, slice, len, iteration
             N = sim.N
